@@ -48,6 +48,8 @@ pub enum Op {
     SetVariable(String, String),
     /// several run-control requests written back to back, without waiting for responses or events
     Pipelined(Vec<String>),
+    /// `configurationDone` once more, in the middle of the session (it has been sent already): no effect expected
+    ConfigurationDoneAgain,
 }
 
 impl Op {
@@ -73,6 +75,7 @@ impl Op {
             Op::Threads => json!({"op": "threads"}),
             Op::SetVariable(n, t) => json!({"op": "setVariable", "name": n, "value": t}),
             Op::Pipelined(c) => json!({"op": "pipelined", "cmds": c}),
+            Op::ConfigurationDoneAgain => json!({"op": "configurationDoneAgain"}),
         }
     }
     fn from_json(v: &Value) -> Option<Op> {
@@ -114,6 +117,7 @@ impl Op {
                     .collect::<Option<Vec<_>>>()?,
             ),
             "threads" => Op::Threads,
+            "configurationDoneAgain" => Op::ConfigurationDoneAgain,
             "pipelined" => Op::Pipelined(
                 v.get("cmds")?
                     .as_array()?
@@ -304,7 +308,9 @@ pub fn gen_program_ext(rng: &mut Rng) -> (String, Option<String>, bool) {
     let mut subs = String::new();
     let mut long_running = false;
     for s in 0..n_subs {
-        subs.push_str(&format!("sub{}:\n", s));
+        // every subroutine is a scope of its own with a constant that shadows the one of the test body: what
+        // `evaluate` and the locals say about `marker` tells in which scope the debugger thinks the machine is
+        subs.push_str(&format!("sub{}: {{\n    .const marker = {}\n", s, 10 + s));
         match rng.below(12) {
             // recursion: the same code runs in several activations at once
             0 | 1 if s == 0 => {
@@ -337,7 +343,18 @@ pub fn gen_program_ext(rng: &mut Rng) -> (String, Option<String>, bool) {
             // the "run it twice" idiom: a call to the very next instruction
             subs.push_str(&format!("    jsr twice{}\ntwice{}:\n    inc $13\n", s, s));
         }
-        subs.push_str("    rts\n");
+        subs.push_str("    rts\n}\n");
+    }
+    body.insert_str(0, "    .const marker = 1\n");
+    // one program with subroutines in five puts them in a segment at a LOWER address that comes LATER in the
+    // source (the layout of the segment example in the documentation): source order and address order disagree
+    if n_subs > 0 && rng.chance(1, 5) {
+        let defs = ".define segment {\n    name = \"hi\"\n    start = $c000\n}\n.define segment {\n    name = \"lo\"\n    start = $2000\n}\n";
+        return (
+            format!("{}{}.segment \"hi\" {{\n.test \"t\" {{\n{}}}\n}}\n.segment \"lo\" {{\n{}}}\n", top, defs, body, subs),
+            None,
+            long_running,
+        );
     }
     // one program with subroutines in three keeps them in a file of its own
     if n_subs > 0 && !use_macro && rng.chance(1, 3) {
@@ -411,14 +428,15 @@ pub fn gen_case(seed: u64, k: u64) -> Case {
     // swarm weights
     let mut w: Vec<u32> = (0..13).map(|_| 1 + r.below(6) as u32).collect();
     w.push(r.below(3) as u32);
+    w.push(r.below(2) as u32);
     // one case in four is a "breakpoint churn" session: the breakpoint list is replaced again and
     // again while the machine runs (races between the session's write and the machine thread's reads)
     let mut fast_client = false;
     if r.chance(1, 4) {
-        w = vec![4, 1, 5, 1, 1, 1, 1, 0, 2, 1, 12, 0, 1, 0];
+        w = vec![4, 1, 5, 1, 1, 1, 1, 0, 2, 1, 12, 0, 1, 0, 0];
     } else if r.chance(1, 3) {
         // one case in four is a scripted stepper: wait for a stop, step, continue, back to back
-        w = vec![8, 1, 8, 5, 4, 1, 1, 0, 1, 1, 1, 0, 1, 4];
+        w = vec![8, 1, 8, 5, 4, 1, 1, 0, 1, 1, 1, 0, 1, 4, 1];
         fast_client = true;
     }
     let delays: [u64; 8] = [0, 0, 1_000, 10_000, 49_000, 50_000, 51_000, 200_000];
@@ -439,14 +457,7 @@ pub fn gen_case(seed: u64, k: u64) -> Case {
             7 => Op::Scopes,
             8 => Op::Vars(*r.pick(&[1u8, 1, 2, 3])),
             9 => Op::Evaluate(
-                r.pick_str(&[
-                    "cpu.a",
-                    "cpu.x",
-                    "cpu.y",
-                    "cpu.a + cpu.x",
-                    "cpu.flags.zero",
-                    "cpu.flags.carry",
-                ])
+                r.pick_str(&["cpu.a", "cpu.x", "cpu.y", "cpu.a + cpu.x", "cpu.flags.zero", "cpu.flags.carry", "marker", "marker", "marker + cpu.x"])
                 .to_string(),
             ),
             10 if lib.is_some() => {
@@ -458,6 +469,7 @@ pub fn gen_case(seed: u64, k: u64) -> Case {
             }
             10 => Op::SetBreakpoints(pick_bps(&mut r)),
             11 => Op::Threads,
+            14 => Op::ConfigurationDoneAgain,
             13 => {
                 let n = r.range(2, 3);
                 Op::Pipelined(
@@ -880,6 +892,41 @@ impl<'a> Session<'a> {
         false
     }
 
+    /// The value of the constant `marker` in the scope the instruction at `pc` was written in (every subroutine
+    /// shadows the one of the test body). None when the text does not tell: a macro body takes the scope of its
+    /// invocation.
+    fn expected_marker(&mut self, pc: u16) -> Option<i64> {
+        let f = self.reference.frame_of(pc)?;
+        let text: String = if f.path.ends_with("lib.asm") { self.case.lib.clone()? } else { self.case.program.clone() };
+        let lines: Vec<&str> = text.lines().collect();
+        let mut closed = 0usize;
+        let mut l = f.line;
+        loop {
+            let t = *lines.get(l)?;
+            if t == "}" && l != f.line {
+                closed += 1;
+            } else if t.ends_with('{') && l != f.line {
+                if closed > 0 {
+                    closed -= 1;
+                } else if t.starts_with(".macro") {
+                    return None;
+                } else if let Some(n) = t.strip_prefix("sub").and_then(|r| r.strip_suffix(": {")).and_then(|n| n.parse::<i64>().ok()) {
+                    return Some(10 + n);
+                }
+                // `.loop`, `.test`, `.segment`: keep looking further out
+            }
+            if l == 0 {
+                break;
+            }
+            l -= 1;
+        }
+        if self.case.program.contains(".const marker = 1") {
+            Some(1)
+        } else {
+            None
+        }
+    }
+
     /// variables(1): returns the index identified by CYC (and checks registers when `check` is set)
     fn query_registers(
         &mut self,
@@ -1294,10 +1341,18 @@ impl<'a> Session<'a> {
                     }
                 }
             }
+            (Op::Vars(3), View::Stopped(i)) => {
+                let r = self.dap.request("variables", json!({"variablesReference": 3}))?;
+                let pc = self.reference.trace[i].pc;
+                if let (Some(want), Some(got)) = (self.expected_marker(pc), var_value(&r, "marker")) {
+                    self.count("local_marker");
+                    if got != want.to_string() {
+                        self.fail("wrong_scope", "wrong_scope:locals", format!("the locals of the halted machine (instruction #{}, pc ${:04x}) show marker = {}, the scope that instruction was written in has marker = {}", i, pc, got, want));
+                    }
+                }
+            }
             (Op::Vars(n), _) => {
-                let _ = self
-                    .dap
-                    .request("variables", json!({"variablesReference": n}))?;
+                let _ = self.dap.request("variables", json!({"variablesReference": n}))?;
             }
             (Op::Evaluate(e), View::Stopped(i)) => {
                 let r = self.dap.request("evaluate", json!({"expression": e}))?;
@@ -1309,6 +1364,8 @@ impl<'a> Session<'a> {
                     "cpu.a + cpu.x" => Some(t.a as i64 + t.x as i64),
                     "cpu.flags.zero" => Some((t.flags & 2) as i64),
                     "cpu.flags.carry" => Some((t.flags & 1) as i64),
+                    "marker" => self.expected_marker(t.pc),
+                    "marker + cpu.x" => self.expected_marker(t.pc).map(|m| m + t.x as i64),
                     _ => None,
                 };
                 if let (Some(w), true) = (
@@ -1382,6 +1439,10 @@ impl<'a> Session<'a> {
                     // `continued`, or no event at all (yet): the client claims nothing about the machine
                     _ => self.view = View::Running,
                 }
+            }
+            (Op::ConfigurationDoneAgain, _) => {
+                // whatever the answer: the machine stays as it is (a stop is still a stop - later operations check it)
+                let _ = self.dap.request("configurationDone", Value::Null)?;
             }
             (Op::SetVariable(name, text), View::Stopped(i)) => {
                 let r = self.dap.request(
